@@ -12,6 +12,8 @@ import Magog.Model.Time
 import Magog.Model.MoveGen
 import Magog.Model.Fen
 import Magog.Model.Position
+import Magog.Model.Search
+import Magog.Lemmas.EvalDecision
 open Magog
 def okEqI (a : Except String Int) (b : Model.M Int) : Bool :=
   match a, b with | .ok x, .ok y => x == y | .error _, .error _ => true | _, _ => false
@@ -95,6 +97,32 @@ HUNTS = {
           if x != (y : Int) && n < 5 then
             n := n + 1
             IO.println s!"MISMATCH MakeMove castling-corner tests whiteToMove={white} flags={fl} from={f} to={t}: code {x}, model {y}"
+""",
+    "C05": """
+#eval show IO Unit from do
+  let mut n := 0
+  for mate in [true, false] do
+    for cheap in [(-2000 : Int), -371, -321, -320, -319, 0, 10, 319, 320, 321, 371, 2000] do
+      for (alpha, beta) in [((-32001 : Int), (32001 : Int)), (-50, 50), (0, 1), (-1, 0), (100, 400)] do
+        for own in [(0 : Nat), 1, 20] do
+          for enemy in [(0 : Nat), 5, 20] do
+            for depth in [(0 : Int), 1, 7] do
+              let x := Gen.Fn.LazyEvaluate_decision depth alpha beta mate cheap own enemy
+              let y := Magog.Lemmas.lazyDecision depth alpha beta mate cheap own enemy
+              if x != y && n < 5 then
+                n := n + 1
+                IO.println s!"MISMATCH LazyEvaluate depth={depth} alpha={alpha} beta={beta} mate={mate} cheapScore={cheap} ownMoves={own} enemyMoves={enemy}: code {x}, model {y}"
+  for chk in [true, false] do
+    for depth in [(0 : Int), 1, 7, 40] do
+      let x := Gen.Fn.terminalNodeScore_decision depth chk
+      let y : Int := if chk then Gen.LostScore + depth else Gen.DrawScore
+      if x != y && n < 8 then
+        n := n + 1
+        IO.println s!"MISMATCH terminalNodeScore depth={depth} inCheck={chk}: code {x}, model {y}"
+  for sc in [(-100000 : Int), -99999, -99998, -99997, -20801, -20800, -1, 0, 1, 20800, 20801, 99996, 99997, 99998, 99999, 100000] do
+    if (Gen.Fn.closeToMate sc != Model.closeToMate sc || Gen.Fn.pliesToMate sc != Model.pliesToMate sc || Gen.Fn.fullMovesToMate sc != Model.fullMovesToMate sc || Gen.Fn.nextMoveWins sc != Model.nextMoveWins sc) && n < 12 then
+      n := n + 1
+      IO.println s!"MISMATCH mate arithmetic score={sc}: code closeToMate={Gen.Fn.closeToMate sc} pliesToMate={Gen.Fn.pliesToMate sc} fullMovesToMate={Gen.Fn.fullMovesToMate sc} nextMoveWins={Gen.Fn.nextMoveWins sc}, model {Model.closeToMate sc} {Model.pliesToMate sc} {Model.fullMovesToMate sc} {Model.nextMoveWins sc}"
 """,
     "C04": """
 #eval show IO Unit from do
